@@ -181,3 +181,242 @@ if __name__ == "__main__":
     for u in units:
         print(u["name"], "|", re.sub(r"\s+", " ", u["powers"])[:150], "|", re.sub(r"\s+", " ", u["conversion"])[:120])
     print(len(units), meta.get("time_macro_sha"))
+
+
+# ---------------------------------------------------------------------------------------------
+# rendering of the TABLES section (called from gen.generate for the `/*@@ tables @@*/` directive)
+
+BASES = ["KiloGram", "Candela", "Meter", "Second", "Ampere", "Kelvin", "Mole", "Byte"]
+
+
+def _closure_parts(text):
+    """`|a, b| { body }` -> ([a, b], body-with-braces)"""
+    m = re.match(r"\s*\|([^|]*)\|\s*(\{.*\})\s*$", text, re.S)
+    if not m:
+        return None
+    params = [p.strip() for p in m.group(1).split(",") if p.strip()]
+    return params, m.group(2)
+
+
+def load_pins():
+    """known findings that pin a (wrong) constant: NAME -> Fraction string (read from the committed file, never written)"""
+    import json
+    pins = {}
+    path = os.path.join(os.path.dirname(os.path.dirname(os.path.abspath(__file__))), "known_findings.jsonl")
+    if os.path.exists(path):
+        for line in open(path, encoding="utf-8"):
+            line = line.strip()
+            if line.startswith("{"):
+                d = json.loads(line)
+                if "pinned" in d:
+                    pins[d["pinned"]["unit"]] = d["pinned"]["fraction"]
+    return pins
+
+
+def render_tables(repo, std, known_units=()):
+    """-> (chunks [(text, origin)], items_meta, clauses_meta, rules)"""
+    from fractions import Fraction as F
+    units, meta = collect(repo)
+    chunks, items, clauses, rules = [], [], [], []
+
+    def emit(text, origin):
+        for line in text.split("\n"):
+            chunks.append((line + "\n", origin))
+
+    def clause(item, cid, kind, tags, text, indent="        "):
+        clauses.append(dict(item=item, cid=cid, kind=kind, tags=tags, trusted=False))
+        emit(f"{indent}{text}, // [{cid}]", ("clause", item, cid, kind, tags))
+
+    ids_text = open(os.path.join(repo, "src", "generated", "ids.rs"), encoding="utf-8").read()
+    ids = {m.group(1): m.group(2) for m in re.finditer(r"pub const (\w+): u32 = (\d+);", ids_text)}
+    emit("// ---- TABLES: generated from src/units/*.rs (R7 closure lifting) and contracts/standards.toml", ("tmpl", "tables", 0))
+    if meta.get("time_macro_sha") != TIME_MACRO_EXPECTED:
+        raise LostAnchor("src/units/time.rs: macro_rules! time changed (its single pattern is re-implemented by the extractor); sha " + str(meta.get("time_macro_sha")))
+    rules.append(dict(rule="R7m", site="src/units/time.rs", item="macro_rules! time", note="9 time!{..} invocations expanded by the re-implemented pattern (macro text hash checked)"))
+    by_name = {u["name"]: u for u in units}
+    for u in units:
+        name = u["name"]
+        if name not in std:
+            raise LostAnchor(f"{u['file']}: static {name} has no entry in contracts/standards.toml (new unit: the oracle must be extended first)")
+        dim = std[name]["dim"]
+        arms = " ".join(f"Unit::{b} => {d}int," for b, d in zip(BASES, dim) if d != 0)
+        emit(f"pub open spec fn std_dim_{name}(k: Unit) -> int {{ match k {{ {arms} _ => 0int }} }}", ("tmpl", "standards", 0))
+    cur_mod = [None]
+
+    def switch_mod(file):
+        # one Verus module per source file: modules are verified in parallel
+        if cur_mod[0] == file:
+            return
+        if cur_mod[0] is not None:
+            emit("}", ("tmpl", "tables", 0))
+        cur_mod[0] = file
+        if file is not None:
+            mname = "tables_" + re.sub(r"[^A-Za-z0-9]", "_", file)
+            emit(f"pub mod {mname} {{\nuse vstd::prelude::*;\nuse super::*;\nbroadcast use super::base::axiom_bigint_of;", ("tmpl", "tables", 0))
+    # named fn used as `powers:` (time_powers)
+    lifted = {}   # NAME -> fn name proving its closure
+    for u in units:
+        name = u["name"]
+        item = f"{u['file']} :: static {name}"
+        dim = std[name]["dim"]
+        switch_mod(u["file"])
+        # id linkage
+        id_last = u["id"].split("::")[-1].strip()
+        if id_last not in ids:
+            raise LostAnchor(f"{u['file']}: id expression `{u['id']}` of {name} not found in src/generated/ids.rs")
+        emit(f"proof fn table_id_{name}()\n    ensures", ("tmpl", "tables", 0))
+        clause(item, f"tables.{name}.id", "ensures", ["C05", "C17"], f"{ids[id_last]}u32 == {ids.get(name, '0')}u32")
+        emit("{ }", ("tmpl", "tables", 0))
+        # dimension table facts (so that the assumed dispatch contract `dim_table_ok` is backed)
+        emit(f"proof fn table_dim_ok_{name}()\n    ensures", ("tmpl", "tables", 0))
+        clause(item, f"tables.{name}.dim_ok", "ensures", ["C02", "C05"], f"(forall|k: Unit| -8 <= #[trigger] std_dim_{name}(k) <= 8 && (std_dim_{name}(k) != 0 ==> is_base(k))) && (exists|k: Unit| #[trigger] std_dim_{name}(k) != 0)")
+        wit = BASES[[i for i, d in enumerate(dim) if d != 0][0]] if any(dim) else BASES[0]
+        emit(f"{{ assert(std_dim_{name}(Unit::{wit}) != 0); }}", ("tmpl", "tables", 0))
+        # powers
+        cp = _closure_parts(u["powers"])
+        if cp is not None:
+            params, body = cp
+            if len(params) != 2:
+                raise LostAnchor(f"{item}: powers closure has {len(params)} parameters")
+            fn = f"powers_{name}"
+            lifted[name] = fn
+            rules.append(dict(rule="R7", site=f"{u['file']}:{u['powers_line']}", item=item, note=f"`powers:` closure lifted to fn {fn}({params[0]}: &mut Powers, {params[1]}: i32)"))
+            items.append(dict(file=u["file"], selector=f"static {name} :: powers closure", lines=[u["powers_line"], u["powers_line"] + body.count("\n")],
+                              sha256=hashlib.sha256(u["powers"].encode()).hexdigest(), props=["C05", "C02"], trusted=False, kind="fn"))
+            iid = f"{u['file']} :: static {name} :: powers closure"
+            emit(f"fn {fn}({params[0]}: &mut Powers, {params[1]}: i32)\n    requires", ("tmpl", "tables", 0))
+            clause(iid, f"tables.{name}.powers.pre", "requires", ["C05"], f"old({params[0]}).wf() && {params[1]} != 0 && -100000 <= {params[1]} <= 100000 && pw_bounded(old({params[0]})@, 100_000_000)")
+            emit("    ensures", ("tmpl", "tables", 0))
+            clause(iid, f"tables.{name}.powers", "ensures", ["C05", "C02", "C04"], f"final({params[0]}).wf() && (forall|k: Unit| pw_get(final({params[0]})@, k) == pw_get(old({params[0]})@, k) + {params[1]} as int * std_dim_{name}(k))")
+            # body: real text, line by line with code origins
+            base_line = u["powers_line"]
+            for i, line in enumerate(body.split("\n")):
+                if i == 0 and line.strip() == "{":
+                    chunks.append((line + "\n", ("code", u["file"], base_line + i, iid)))
+                    # Verus treats `p * -2` (unary minus on a literal) as a non-linear product: spell the products out once
+                    hints = " ".join(f"assert({params[1]} * (-{c}) == -({c} * {params[1]})) by(nonlinear_arith);" for c in (1, 2, 3, 4, 5, 6))
+                    emit("        proof { " + hints + " }", ("ghost", iid, "neg-literal products"))
+                else:
+                    chunks.append((line + "\n", ("code", u["file"], base_line + i, iid)))
+        else:
+            target = u["powers"].strip()
+            m = re.match(r"(?:[\w:]*::)?(\w+)\.vtable\.powers$", target)
+            if m:
+                other = m.group(1)
+                if other not in by_name:
+                    raise LostAnchor(f"{item}: powers alias `{target}` points at an unknown static")
+                rules.append(dict(rule="R7a", site=f"{u['file']}:{u['powers_line']}", item=item, note=f"`powers: {target}` resolved to the closure of {other}"))
+                emit(f"proof fn table_alias_{name}()\n    ensures", ("tmpl", "tables", 0))
+                clause(item, f"tables.{name}.powers_alias", "ensures", ["C05", "C02"], f"forall|k: Unit| std_dim_{name}(k) == std_dim_{other}(k)")
+                emit("{ }", ("tmpl", "tables", 0))
+            elif re.fullmatch(r"\w+", target):
+                # a named fn item (time_powers): proved once below, per-unit obligation is equality of the dimension vectors
+                lifted.setdefault("@fn:" + target, name)
+                first = lifted["@fn:" + target]
+                emit(f"proof fn table_alias_{name}()\n    ensures", ("tmpl", "tables", 0))
+                clause(item, f"tables.{name}.powers_alias", "ensures", ["C05", "C02"], f"forall|k: Unit| std_dim_{name}(k) == std_dim_{first}(k)")
+                emit("{ }", ("tmpl", "tables", 0))
+            else:
+                raise LostAnchor(f"{item}: `powers:` initialiser not understood: {target[:60]}")
+        # conversion
+        conv = parse_conversion(u["conversion"])
+        readings = [F(x) for x in std[name]["readings"]]
+        if conv[0] == "none":
+            emit(f"proof fn table_conv_{name}()\n    ensures", ("tmpl", "tables", 0))
+            ok = "true" if F(1) in readings else "false"
+            clause(item, f"tables.{name}.conv", "ensures", ["C05"], f"{ok} /* no conversion: the coherent SI unit; standard readings {std[name]['readings']} */")
+            emit("{ }", ("tmpl", "tables", 0))
+        elif conv[0] in ("factor", "offset"):
+            n_txt, d_txt = conv[1], conv[2]
+            emit(f"proof fn table_conv_{name}()\n    ensures", ("tmpl", "tables", 0))
+            clause(item, f"tables.{name}.conv_ok", "ensures", ["C05", "C11"], f"{n_txt}int != 0 && {d_txt}int != 0")
+            if conv[0] == "factor":
+                alts = " || ".join(f"{n_txt}int * {r.denominator}int == {d_txt}int * {r.numerator}int" for r in readings)
+            else:
+                off = F(std[name]["offset_kelvin"])
+                alts = f"{n_txt}int * {off.denominator}int == {d_txt}int * {off.numerator}int"
+            clause(item, f"tables.{name}.conv", "ensures", ["C05", "C09"] if conv[0] == "offset" else ["C05"], alts)
+            pins = load_pins()
+            if name in pins:
+                # a known finding owns this constant: pin the recorded wrong value so that a DIFFERENT wrong value is still reported
+                pf = F(pins[name])
+                clause(item, f"tables.{name}.conv_kf_pin", "ensures", ["C05"], f"{n_txt}int * {pf.denominator}int == {d_txt}int * {pf.numerator}int")
+            emit("{ }", ("tmpl", "tables", 0))
+            rules.append(dict(rule="R7c", site=f"{u['file']}:{u['conversion_line']}", item=item, note=f"conversion literal {conv[0]} {n_txt}/{d_txt} copied into the obligation"))
+        else:
+            # Methods: lift `to:` and `from:` closures
+            text = u["conversion"]
+            mt = re.search(r"to:\s*(\|[^|]*\|\s*\{.*?\n\s*\}),\s*from:\s*(\|[^|]*\|\s*\{.*?\n\s*\}),?\s*\}\)\)", text, re.S)
+            if not mt:
+                raise LostAnchor(f"{item}: ConversionMethods initialiser not understood")
+            for which, ctext, formula in (("to", mt.group(1), "(old(P)@ - 32real) * 5real / 9real + 273.15real"), ("from", mt.group(2), "(old(P)@ - 273.15real) * 9real / 5real + 32real")):
+                params, body = _closure_parts(ctext)
+                fn = f"methods_{which}_{name}"
+                iid = f"{u['file']} :: static {name} :: {which} closure"
+                off = text.index(ctext)
+                line0 = u["conversion_line"] + text[:off].count("\n")
+                items.append(dict(file=u["file"], selector=f"static {name} :: {which} closure", lines=[line0, line0 + body.count("\n")],
+                                  sha256=hashlib.sha256(ctext.encode()).hexdigest(), props=["C09", "C05"], trusted=False, kind="fn"))
+                rules.append(dict(rule="R7", site=f"{u['file']}:{line0}", item=item, note=f"`{which}:` closure lifted to fn {fn}({params[0]}: &mut Rational)"))
+                emit(f"fn {fn}({params[0]}: &mut Rational)\n    ensures", ("tmpl", "tables", 0))
+                clause(iid, f"tables.{name}.{which}", "ensures", ["C09", "C05"], f"final({params[0]})@ == " + formula.replace("P", params[0]))
+                for i, line in enumerate(body.split("\n")):
+                    if i == 0:
+                        chunks.append((line + "\n", ("code", u["file"], line0 + i, iid)))
+                        emit("        proof { assert((32int) as real / (1int) as real == 32real) by(nonlinear_arith); assert((27315int) as real / (100int) as real == 273.15real) by(nonlinear_arith); assert((5int) as real / (9int) as real == 5real / 9real); assert((9int) as real / (5int) as real == 9real / 5real); }", ("ghost", iid, "consts"))
+                    elif i == len(body.split("\n")) - 1 and line.strip() == "}":
+                        c0, c1 = ("32real", "5real / 9real") if which == "to" else ("273.15real", "9real / 5real")
+                        c1n, c1d = c1.split(" / ")
+                        emit(f"        proof {{ let a = old({params[0]})@ - {c0}; assert(a * ({c1}) == a * {c1n} / {c1d}) by(nonlinear_arith); }}", ("ghost", iid, "linear step"))
+                        chunks.append((line + "\n", ("code", u["file"], line0 + i, iid)))
+                    else:
+                        chunks.append((line + "\n", ("code", u["file"], line0 + i, iid)))
+    switch_mod(None)
+    # named fn items used as powers
+    for key, first in list(lifted.items()):
+        if not key.startswith("@fn:"):
+            continue
+        fname = key[4:]
+        u = by_name[first]
+        sf = SourceFile(u["file"], open(os.path.join(repo, u["file"]), encoding="utf-8").read())
+        it = sf.find(f"fn {fname}")
+        text = sf.item_text(it)
+        m = re.match(r"\s*fn\s+\w+\s*\(\s*(\w+)\s*:\s*&mut\s+Powers\s*,\s*(\w+)\s*:\s*i32\s*\)\s*(\{.*\})\s*$", text, re.S)
+        if not m:
+            raise LostAnchor(f"{u['file']}: fn {fname} signature changed")
+        p0, p1, body = m.group(1), m.group(2), m.group(3)
+        iid = f"{u['file']} :: fn {fname}"
+        line0 = sf.line_of(sf.toks[it.kw_tok].start)
+        items.append(dict(file=u["file"], selector=f"fn {fname}", lines=[line0, line0 + text.count("\n")], sha256=hashlib.sha256(text.encode()).hexdigest(), props=["C05", "C02"], trusted=False, kind="fn"))
+        emit(f"fn {fname}({p0}: &mut Powers, {p1}: i32)\n    requires", ("tmpl", "tables", 0))
+        clause(iid, f"tables.{fname}.pre", "requires", ["C05"], f"old({p0}).wf() && {p1} != 0 && -100000 <= {p1} <= 100000 && pw_bounded(old({p0})@, 100_000_000)")
+        emit("    ensures", ("tmpl", "tables", 0))
+        clause(iid, f"tables.{fname}.powers", "ensures", ["C05", "C02", "C04"], f"final({p0}).wf() && (forall|k: Unit| pw_get(final({p0})@, k) == pw_get(old({p0})@, k) + {p1} as int * std_dim_{first}(k))")
+        body_line = line0 + text[:text.index(body)].count("\n")
+        for i, line in enumerate(body.split("\n")):
+            chunks.append((line + "\n", ("code", u["file"], body_line + i, iid)))
+    # prefix constants
+    pf = SourceFile("src/prefix.rs", open(os.path.join(repo, "src/prefix.rs"), encoding="utf-8").read())
+    impl = pf.find("impl Prefix")
+    seen = set()
+    for it in scan_items(pf.toks, impl.body_open + 1, impl.end):
+        if it.kw == "const":
+            text = pf.item_text(it)
+            m = re.search(r"const\s+(\w+)\s*:\s*i32\s*=\s*(-?\s*\d+)\s*;", text)
+            if not m:
+                raise LostAnchor(f"src/prefix.rs: const {it.name} not understood")
+            pname, val = m.group(1), m.group(2).replace(" ", "")
+            if pname not in std["_prefixes"]:
+                raise LostAnchor(f"src/prefix.rs: prefix {pname} has no entry in standards.toml")
+            seen.add(pname)
+            item = f"src/prefix.rs :: impl Prefix :: const {pname}"
+            emit(f"proof fn table_prefix_{pname}()\n    ensures", ("tmpl", "tables", 0))
+            clause(item, f"tables.prefix.{pname}", "ensures", ["C03", "C05"], f"({val}) as int == {std['_prefixes'][pname]}int")
+            emit("{ }", ("tmpl", "tables", 0))
+    missing = set(std["_prefixes"]) - seen
+    if missing:
+        raise LostAnchor(f"src/prefix.rs: prefix constants missing: {sorted(missing)}")
+    return chunks, items, clauses, rules
+
+
+TIME_MACRO_EXPECTED = "47ee6414200b8da6d486373931a7ff65f9f97f1fcf2576af2c6c612b5378adf9"
